@@ -477,7 +477,7 @@ func genSingle(c *Case, r *simrt.Rand, cfg genCfg) {
 			if r.Chance(0.6) {
 				c.Prog = append(c.Prog, Op{Kind: "drain"})
 			}
-			c.Prog = append(c.Prog, Op{Kind: "reopen", O: &o})
+			c.Prog = append(c.Prog, Op{Kind: "reopen", O: &o, Flag: r.Chance(0.4)})
 		case "clock":
 			c.Prog = append(c.Prog, Op{Kind: "clock", N: pick(r, []int{1, 6, 60, 200})})
 		case "snap":
